@@ -30,33 +30,49 @@ def truncate_after(trace: dict, op_index: int, key: str = "ops") -> Iterator[dic
         yield cand
 
 
-def shrink(sim: Sim, trace: dict, oracle: str, budget_s: float = 25.0, max_exec: int = 1500) -> tuple[dict, int]:
+def shrink(sim: Sim, trace: dict, oracle: str, budget_s: float = 25.0, max_exec: int = 4000) -> tuple[dict, int]:
+    """Pass-based greedy reduction. A pass is re-run from its start after each accepted candidate;
+    the whole pass list is repeated until a full sweep accepts nothing (or the budget is spent)."""
     cur = copy.deepcopy(trace)
     t0 = time.monotonic()
     execs = 0
-    improved = True
-    while improved:
-        improved = False
 
-        def all_candidates() -> Iterator[dict]:
-            out0 = sim.execute(cur)
-            if out0.violation:
-                yield from truncate_after(cur, out0.violation["op"])
-            yield from drop_chunks(cur)
-            yield from sim.shrink_candidates(cur)
+    def fails(cand: dict) -> bool:
+        nonlocal execs
+        execs += 1
+        try:
+            out = sim.execute(copy.deepcopy(cand))
+        except HarnessTimeout:
+            raise
+        except Exception:  # a candidate the runner cannot execute is simply not kept
+            return False
+        return bool(out.violation) and out.violation["oracle"] == oracle
 
-        for cand in all_candidates():
-            if time.monotonic() - t0 > budget_s or execs >= max_exec:
-                return cur, execs
-            execs += 1
-            try:
-                out = sim.execute(copy.deepcopy(cand))
-            except HarnessTimeout:
-                raise
-            except Exception:  # a candidate the runner cannot execute is simply not kept
-                continue
-            if out.violation and out.violation["oracle"] == oracle:
-                cur = cand
-                improved = True
-                break
+    def spent() -> bool:
+        return time.monotonic() - t0 > budget_s or execs >= max_exec
+
+    def p_truncate(t: dict) -> Iterator[dict]:
+        out0 = sim.execute(copy.deepcopy(t))
+        if out0.violation:
+            yield from truncate_after(t, out0.violation["op"])
+
+    passes = [p_truncate, drop_chunks] + list(sim.shrink_passes())
+    progress = True
+    while progress and not spent():
+        progress = False
+        for p in passes:
+            skip = 0
+            again = True
+            while again and not spent():
+                again = False
+                for idx, cand in enumerate(p(cur)):
+                    if idx < skip:
+                        continue  # rejected before the last accepted cut; the list only shifted by one
+                    if spent():
+                        break
+                    if fails(cand):
+                        cur = cand
+                        skip = idx
+                        again = progress = True
+                        break
     return cur, execs
